@@ -128,7 +128,7 @@ func init() {
 					c.check(ok1 && strings.HasSuffix(op.key, "stateUpdate.L1RefHeight") && op.val == "stateUpdate", "guards", "applyStateUpdate: insert keyed by L1RefHeight", p.Pos(posOf(in, in.Parent())), "non-removed updates are buffered under their L1 reference height", "buffering changed: key "+op.key+" value "+op.val+" "+m1)
 				}
 			}
-			if nf < 4 {
+			if nf < 3 { // four on today's tree; a selection folded into a maps.DeleteFunc predicate is seen as one operation
 				c.und("guards", "l1.Client buffer operations", "", fmt.Sprintf("only %d buffer operations recognised", nf))
 			}
 		}
